@@ -265,18 +265,122 @@ theorem upd_draw_binv (W H : Nat) (fx : Fixes) (hW : 0 < W) (b ub : Bar) (t : Te
   · exact Or.inl h
   · right; rw [frameRows_lg (draw_lg ub force now)]; exact h
 
+/-- a forced draw on a terminal target is never skipped -/
+theorem draw_forced_ne_nil (b : Bar) (tt : TermTarget) (h : b.target = some tt) (now : Nat) : (b.draw true now).2 ≠ [] := by
+  unfold Bar.draw
+  simp only [h, Bool.true_or, TermTarget.drawable, if_true, Bool.not_true, Bool.false_eq_true, if_false]
+  exact drawToTerm_ne_nil _ _ _ _ _
+
+/-! ### Ordinary output between two draws (`suspend`) -/
+
+/-- one non-empty line of ordinary output on a terminal that shows the log and no frame -/
+theorem writeLine_integrity (W H : Nat) (t : Term) (logs : List (List Nat)) (l : List Nat) (hl : l ≠ [])
+    (hI : Integrity W H t 0 logs []) :
+    Integrity W H (t.exec (.writeLine (utext l))) 0 (logs ++ [l]) [] := by
+  obtain ⟨hW, hH, _, pre, hpre, hcur⟩ := hI
+  have hexec : t.exec (.writeLine (utext l)) = (t.write l).newline := by
+    simp only [Term.exec, writeG_utext]
+  -- a fresh terminal at `pre` on which the line is written, then a newline
+  have fresh_case : ∀ u : Term, Fresh u pre → u.W = W → u.H = H →
+      Integrity W H (u.write l).newline 0 (logs ++ [l]) [] := by
+    intro u hf huW huH
+    obtain ⟨hw, hwW, hwH, _⟩ := write_line_fresh u pre l hf
+    obtain ⟨hn, _, _⟩ := newline_painted (u.write l) _ hw.painted
+    have hnW := newline_W (u.write l)
+    refine ⟨by rw [hnW.1, hwW, huW], by rw [hnW.2, hwH, huH], by simp [wrapAll], pre ++ wrap u.W l, ?_, .fresh hn rfl⟩
+    rw [norm_append, hpre, wrapAll_append, norm_append, huW]
+    simp [wrapAll, norm]
+  rw [hexec]
+  cases hcur with
+  | fresh hf _ => exact fresh_case t hf hW hH
+  | edge hp hc _ =>
+    obtain ⟨g, gs, rfl⟩ : ∃ g gs, l = g :: gs := by
+      cases l with
+      | nil => exact absurd rfl hl
+      | cons g gs => exact ⟨g, gs, rfl⟩
+    rw [write_pending t g gs hp.wf.hW hc]
+    obtain ⟨hn, _, _⟩ := newline_painted t pre hp
+    have hnW := newline_W t
+    exact fresh_case t.newline hn (by rw [hnW.1, hW]) (by rw [hnW.2, hH])
+
+/-- the lines a closure writes, one after the other -/
+theorem writeLines_integrity (W H : Nat) : ∀ (out : List (List Nat)) (t : Term) (logs : List (List Nat)),
+    (∀ l ∈ out, l ≠ []) → Integrity W H t 0 logs [] →
+    Integrity W H (t.execAll (out.map (fun l => TOp.writeLine (utext l)))) 0 (logs ++ out) []
+  | [], t, logs, _, h => by simpa [Term.execAll] using h
+  | l :: ls, t, logs, hne, h => by
+    have h1 := writeLine_integrity W H t logs l (hne l (by simp)) h
+    have h2 := writeLines_integrity W H ls _ _ (fun x hx => hne x (by simp [hx])) h1
+    simpa [Term.execAll, List.append_assoc] using h2
+
+/-- **`suspend`**: the frame is cleared, the closure's lines (unit-width, non-empty) are written below the log, and the forced
+redraw shows the log — now with those lines — followed by the bar's rendering -/
+theorem suspend_binv (W H : Nat) (fx : Fixes) (hW : 0 < W) (b : Bar) (t : Term) (logs frame : List (List Nat)) (now : Nat)
+    (out : List Text) (hB : BInv W H fx b t logs frame) (hF : FrameOk W H b)
+    (hu : ∀ l ∈ out, UnitT l) (hne : ∀ l ∈ out, l ≠ []) :
+    (b.step now (.suspend out)).2 ≠ [] ∧
+    BInv W H fx (b.step now (.suspend out)).1 (t.execAll (b.step now (.suspend out)).2) (logs ++ out.map cps)
+      (frameRows (b.step now (.suspend out)).1) := by
+  obtain ⟨tt, htt, hT, hI⟩ := hB
+  -- the clearing draw
+  have hclear := emit_integrity W H fx hW tt t logs frame hT hI [] [] (fun _ h => by cases h) (fun _ h => by cases h)
+    (by simp [wrapAll]) (by simp [headNonEmpty])
+  simp only [List.append_nil, List.map_nil] at hclear
+  obtain ⟨hI1, hT1⟩ := hclear
+  have hllc1 : (drawToTerm tt.fx { tt.ds with lines := [] } tt.W tt.H tt.llc).2 = 0 := by
+    have := hI1.2.2.1; simpa [wrapAll] using this
+  -- the closure's output
+  have hout : out.map TOp.writeLine = (out.map cps).map (fun l => TOp.writeLine (utext l)) := by
+    rw [List.map_map]
+    apply List.map_congr_left
+    intro l hl
+    simp only [Function.comp, utext_cps l (hu l hl)]
+  have hI2 := writeLines_integrity W H (out.map cps) _ logs
+    (fun l hl => by
+      obtain ⟨x, hx, rfl⟩ := List.mem_map.1 hl
+      intro he
+      have : x = [] := by cases x with
+        | nil => rfl
+        | cons g gs => simp [cps] at he
+      exact hne x hx this)
+    (by rw [hllc1] at hI1; exact hI1)
+  -- the forced redraw
+  let ds1 : DrawState := ({ tt.ds with lines := [] } : DrawState).after tt.fx tt.W tt.H tt.llc
+  let n1 : Nat := (drawToTerm tt.fx { tt.ds with lines := [] } tt.W tt.H tt.llc).2
+  let b1 : Bar := { b with target := some { tt with ds := ds1, llc := n1 } }
+  have hlg1 : Lg b1 = Lg b := rfl
+  have hB1 : BInv W H fx b1 ((t.execAll (drawToTerm tt.fx { tt.ds with lines := [] } tt.W tt.H tt.llc).1).execAll (out.map TOp.writeLine))
+      (logs ++ out.map cps) [] :=
+    ⟨_, rfl, hT1, by rw [hout]; show Integrity W H _ (drawToTerm tt.fx { tt.ds with lines := [] } tt.W tt.H tt.llc).2 _ _; rw [hllc1]; exact hI2⟩
+  have hd := draw_binv W H fx hW b1 _ _ _ hB1 (frameOk_lg hlg1 hF) true now
+  have hne1 := draw_forced_ne_nil b1 _ rfl now
+  have hstep : b.step now (.suspend out) =
+      ((b1.draw true now).1, (drawToTerm tt.fx { tt.ds with lines := [] } tt.W tt.H tt.llc).1 ++ out.map TOp.writeLine ++ (b1.draw true now).2) := by
+    simp only [Bar.step, htt]
+    rfl
+  rcases hd with h | h
+  · exact absurd h.1 hne1
+  · rw [hstep]
+    refine ⟨by simp [hne1], ?_⟩
+    simp only [execAll_append]
+    rw [frameRows_lg ((draw_lg b1 true now).trans hlg1)]
+    rw [← frameRows_lg hlg1]
+    exact h.2
+
 /-- the lines an operation prints above the bar -/
 def printedBy : BarOp → List (List Nat)
   | .println t => (toLines t).map (fun l => cps l.gs)
+  | .suspend out => out.map cps
   | _ => []
 
 /-- side conditions of one operation: the frame of the state it leaves can be drawn inside the theorem's scope, printed text is
-unit-width with a non-empty first line; `suspend` (ordinary output between two draws) is outside this lemma -/
+unit-width with a non-empty first line; the lines a `suspend` closure writes are unit-width and non-empty (an empty line written
+while the cursor is parked in the last column is finding F30) -/
 def OpOk (W H : Nat) (b : Bar) (now : Nat) (op : BarOp) : Prop :=
   FrameOk W H (b.step now op).1 ∧
   (match op with
    | .println t => (∀ l ∈ toLines t, UnitT l.gs) ∧ firstNonEmpty ((toLines t).map (fun l => cps l.gs))
-   | .suspend _ => False
+   | .suspend out => (∀ l ∈ out, UnitT l) ∧ (∀ l ∈ out, l ≠ [])
    | _ => True)
 
 theorem toLines_kind (t : Text) : ∀ l ∈ toLines t, l.kind ≠ .bar := by
@@ -310,7 +414,7 @@ theorem finishUsing_eq (b : Bar) (now : Nat) (f : Finish) :
 theorem posAllow_target (b : Bar) (now : Nat) : (b.posAllow now).2.target = b.target := by
   unfold Bar.posAllow; split <;> rfl
 
-/-- **one bar operation** (anything but `suspend`): it makes no terminal call and leaves the screen as it is (hidden by the
+/-- **one bar operation**: it makes no terminal call and leaves the screen as it is (hidden by the
 limiter or the position gate), or it completes one draw after which the terminal shows the log — extended by what the
 operation printed — followed by the rendering of the state the operation leaves -/
 theorem step_binv (W H : Nat) (fx : Fixes) (hW : 0 < W) (b : Bar) (t : Term) (logs frame : List (List Nat)) (now : Nat) (op : BarOp)
@@ -364,7 +468,13 @@ theorem step_binv (W H : Nat) (fx : Fixes) (hW : 0 < W) (b : Bar) (t : Term) (lo
     · obtain ⟨ub, hu, he⟩ := finishUsing_eq b now b.onFinish
       have : b.step now .drop = ub.draw true now := by simp only [Bar.step, hfin, if_false]; exact he
       exact gen ub true this hu rfl
-  | suspend out => exact absurd hx (by simp [OpOk])
+  | suspend out =>
+    right
+    have hlg : Lg (b.step now (.suspend out)).1 = Lg b := by
+      obtain ⟨tt, htt, _, _⟩ := hB
+      simp only [Bar.step, htt]
+      exact draw_lg _ true now
+    exact suspend_binv W H fx hW b t logs frame now out hB (frameOk_lg hlg.symm hF) hx.1 hx.2
   | println txt =>
     right
     obtain ⟨tt, htt, hT, hI⟩ := hB
@@ -375,12 +485,6 @@ theorem step_binv (W H : Nat) (fx : Fixes) (hW : 0 < W) (b : Bar) (t : Term) (lo
     simp only [Bar.step, htt]
     simp only [frameLines] at h
     exact ⟨drawToTerm_ne_nil _ _ _ _ _, _, rfl, h.2, h.1⟩
-
-/-- a forced draw on a terminal target is never skipped -/
-theorem draw_forced_ne_nil (b : Bar) (tt : TermTarget) (h : b.target = some tt) (now : Nat) : (b.draw true now).2 ≠ [] := by
-  unfold Bar.draw
-  simp only [h, Bool.true_or, TermTarget.drawable, if_true, Bool.not_true, Bool.false_eq_true, if_false]
-  exact drawToTerm_ne_nil _ _ _ _ _
 
 /-- **finishing always paints**: whatever the limiter and the position gate say, a `finish*` / `abandon*` /
 `finish_using_style` call on a bar with a terminal target completes a draw, after which the terminal shows the log followed
